@@ -4,6 +4,7 @@ import (
 	"errors"
 	"fmt"
 	"strings"
+	"unicode/utf8"
 
 	schema "github.com/jsightapi/jsight-schema-core"
 	"github.com/jsightapi/jsight-schema-core/bytes"
@@ -238,11 +239,30 @@ func (c *Catalog) hasInteraction(id InteractionID) bool {
 	if c.Interactions.Has(id) {
 		return true
 	}
-	key := strings.ToValidUTF8(id.String(), "\uFFFD")
+	key := jsonKeyText(id.String())
 	_, found := c.Interactions.Find(func(k InteractionID, _ Interaction) bool {
-		return strings.ToValidUTF8(k.String(), "\uFFFD") == key
+		return jsonKeyText(k.String()) == key
 	})
 	return found
+}
+
+// jsonKeyText returns the text which encoding/json writes for s: every byte
+// which is not a part of a valid UTF-8 sequence becomes U+FFFD, one for each byte.
+func jsonKeyText(s string) string {
+	if utf8.ValidString(s) {
+		return s
+	}
+	var b strings.Builder
+	for i := 0; i < len(s); {
+		r, n := utf8.DecodeRuneInString(s[i:])
+		if r == utf8.RuneError && n == 1 {
+			b.WriteRune(utf8.RuneError)
+		} else {
+			b.WriteString(s[i : i+n])
+		}
+		i += n
+	}
+	return b.String()
 }
 
 func (c *Catalog) AddDescriptionToHTTPMethod(d directive.Directive, text string) error {
